@@ -580,6 +580,8 @@ par_step!(par_q_ab_id_muta_optb, RAB, [true, false] x 3,
     views = (entity::Identifier, &mut A, Option<&mut B>), bind = (id, a, ob), checks = [(id id), (req 0 a), (opt 1 ob)]);
 par_step!(par_q_dbwa_gap, RDBWA, [true, false, true, true] x 2,
     views = (entity::Identifier, Option<&B>, &mut W, Option<&mut A>), bind = (id, ob, w, oa), checks = [(id id), (opt 1 ob), (req 2 w), (opt 3 oa)]);
+par_step!(par_q_dbwa_optmut_present_then_later, RDBWA, [true, true, false, true] x 2,
+    views = (Option<&mut D>, entity::Identifier, &mut B, Option<&mut A>), bind = (od, id, bb, oa), checks = [(opt 0 od), (id id), (req 1 bb), (opt 3 oa)]);
 par_step!(par_t_dbwa_rev_order, RDBWA, [true, true, true, true] x 3,
     views = (&A, Option<&mut W>, entity::Identifier, &mut B, Option<&D>), bind = (a, ow, id, bb, od), checks = [(req 3 a), (opt 2 ow), (id id), (req 1 bb), (opt 0 od)]);
 par_step!(par_t_dbwa_absent_mut_opts, RDBWA, [false, true, false, false] x 3,
